@@ -1200,6 +1200,15 @@ class _Ctx:
                 kwargs = {}
         if is_t(f, "attr") and f[2] in ev.call_aliases() and f[1] != P("self"):
             f = f[1]
+        # (f if c else g)(a if c else b) is (f(a) if c else g(b)): a call through a joined callee / receiver is the join of the calls
+        rcv = f[1] if is_t(f, "attr") else f
+        if is_t(rcv, "phi") and "**" not in kwargs:
+            c = rcv[1]
+            arms = []
+            for pol in (True, False):
+                fa = resolve(f, c, pol)
+                arms.append(self.call_value(fa, [resolve(x, c, pol) for x in args], {k: resolve(v, c, pol) for k, v in kwargs.items()}))
+            return mk_phi(c, arms[0], arms[1])
         # fluent spellings: genjax.switch(x, y) is x.switch(y); genjax.vmap(in_axes=a)(x) is x.vmap(a)
         if is_t(f, "global") and f[1].startswith("genjax") and not kwargs and args and not is_t(args[0], "star") and args[0] != P("self"):
             hit = ev.fluent()[0].get(f[1].split(".")[-1])
